@@ -1,0 +1,6 @@
+//go:build !verif
+
+package table
+
+// vevent marks a persistence event (see ../verif_on.go); empty without the `verif` build tag.
+func vevent(kind int, path string, a, b int64) {}
